@@ -13,6 +13,9 @@
 (*           what get_metadata said about the member's name; meta_extra:   *)
 (*           it advertised a name that is neither the member nor the       *)
 (*           bystander                                                     *)
+(*  extra    an attribute request that carries more than the name (and the *)
+(*           value): it may be refused even where the plain request is     *)
+(*           served, but it must not reach anything else                   *)
 (***************************************************************************)
 EXTENDS Naturals, Sequences, TLC, Json, IOUtils
 VARIABLES m, rk, nv
@@ -30,9 +33,11 @@ Check(x) ==
         srv == E!Served(x.m, rkk, x.nv) IN
     IF x.ran /\ ~srv THEN "C02.UnservedCodeRan"
     ELSE IF ~srv /\ x.changed THEN "C02.RefusedRequestChangedObject"
-    ELSE IF srv /\ ~x.ran THEN "C02.ExposedMemberRefused"
+    ELSE IF srv /\ ~x.ran /\ ~x.extra THEN "C02.ExposedMemberRefused"
+    ELSE IF srv /\ ~x.ran /\ x.reply = "result" THEN "C02.ServedWithoutRunning"
     ELSE IF silent /\ x.reply # "none" THEN "C02.OnewayGotReply"
-    ELSE IF ~silent /\ srv /\ x.reply # "result" THEN "C02.ServedWithoutResult"
+    ELSE IF ~silent /\ srv /\ x.ran /\ x.reply # "result" THEN "C02.ServedWithoutResult"
+    ELSE IF ~silent /\ srv /\ ~x.ran /\ x.reply # "error" THEN "C02.RefusalNotReported"
     ELSE IF ~silent /\ ~srv /\ x.reply # "error" THEN "C02.RefusalNotReported"
     ELSE IF rkk = "batch" /\ x.bystanders # (IF srv THEN 2 ELSE 1) THEN "C02.BatchContinuedPastRefusal"
     ELSE IF x.meta_method # E!AdvertisedAsMethod(x.m) THEN "C02.AdvertisedMethodsNotServedSet"
